@@ -73,6 +73,32 @@ def digest(obj, _depth=0):
     return h.hexdigest()
 
 
+def shared_state(est):
+    """digest of everything mutable that is NOT owned by one instance: class attributes along the MRO (pykoop classes)
+    and simple module-level globals of the pykoop modules - state every instance in the process shares"""
+    import types
+    items = []
+    for cls in type(est).__mro__:
+        if not getattr(cls, '__module__', '').startswith('pykoop'):
+            continue
+        for k, v in vars(cls).items():
+            if k.startswith('__') or callable(v) or isinstance(v, (property, staticmethod, classmethod, types.MemberDescriptorType)):
+                continue
+            if k in ('_abc_impl',) or k.startswith('_sklearn_auto_wrap') or k.startswith('_abc'):
+                continue
+            items.append((f'{cls.__name__}.{k}', digest(v)))
+    import pykoop.koopman_pipeline, pykoop.lmi_regressors, pykoop.lifting_functions, pykoop.regressors, pykoop.centers, \
+        pykoop.kernel_approximation, pykoop.tsvd, pykoop.util
+    for mod in (pykoop.koopman_pipeline, pykoop.lmi_regressors, pykoop.lifting_functions, pykoop.regressors, pykoop.centers,
+                pykoop.kernel_approximation, pykoop.tsvd, pykoop.util):
+        for k, v in vars(mod).items():
+            if k.startswith('__') or k == 'polite_stop':          # (polite_stop: finding F-stop has its own probe)
+                continue
+            if isinstance(v, (bool, int, float, str, dict, list, set, tuple, np.ndarray)) or v is None:
+                items.append((f'{mod.__name__}.{k}', digest(v)))
+    return sorted(items)
+
+
 def fitted_attrs(est):
     out = {}
     for k, v in vars(est).items():
@@ -298,12 +324,18 @@ def run_history(ctx, z, length, frames=False):
             X, kw = D[i]
             Xc = np.array(X).copy()
             before = digest(est.get_params(deep=True))
+            shared0 = shared_state(est)
             try:
                 est.fit(X, **kw)
             except Exception as ex:
                 hist.append(f'fit({i}) raised {type(ex).__name__}')
                 last = None
                 continue
+            shared1 = shared_state(est)
+            if shared1 != shared0:
+                changed = sorted({k for (k, v) in set(shared1) ^ set(shared0)})
+                fails.append((f'fit modified state shared by all instances (class attributes / module globals): {changed[:4]}',
+                              {'estimator': z['name'], 'part': 'shared'}))
             hist.append(f'fit({i})')
             last = i
             if not np.array_equal(np.array(X), Xc):
